@@ -207,6 +207,22 @@ pub fn gen(prop: &str, tier: &str, seed: u64, out: &mut Vec<String>) {
                                 _ => format!("0:0:$~{}^{}", r.below(total + 1), 1 + r.below(255)),
                             };
                             out.push(format!("fragdec {fl} {cs} {b} {size} {bs} {ql} {src} {expr}"));
+                            // the driver on a borrowed reader, the response followed by another message: what is
+                            // left for the next reader of the connection must not depend on the slicing either
+                            if r.chance(1, 3) {
+                                let n = *r.pick(&[1u64, 64, 65, 1000, 9000]) as usize;
+                                let tail: String = (0..n).map(|i| format!("{:02x}", (i * 31 + 7) % 256)).collect();
+                                let sink = *r.pick(crate::gen2::SINKS);
+                                let fl2 = if r.chance(1, 2) { "sync" } else { "fsm" };
+                                out.push(format!("fragdecr {cs} {fl2} {sink} {b} {bs} {ql} {src} 0:0:$+x{tail} {}", 1 + r.below(200)));
+                            }
+                        }
+                        // unfragmented transport as well (a reader that hands out everything it has)
+                        {
+                            let sink = *r.pick(crate::gen2::SINKS);
+                            let fl2 = if r.chance(1, 2) { "sync" } else { "fsm" };
+                            let tail: String = (0..9000usize).map(|i| format!("{:02x}", (i * 31 + 7) % 256)).collect();
+                            out.push(format!("fragdecr c- {fl2} {sink} {b} {bs} {ql} {src} 0:0:$+x{tail} 7"));
                         }
                     }
                     // data source fragmented: outboard creation and the encoder
